@@ -112,6 +112,7 @@ def run_property(prop, tier, seed, only=None, jobs=16, keep_going=True):
             groups.setdefault(key, []).append(m)
     results = []       # (meta, cfg, result)
     violations, inconclusive, known_hits = [], [], []
+    unreplayed = []
     known = load_known()
     for (cfg, uws), metas in sorted(groups.items(), key=lambda kv: (kv[0][0], str(kv[0][1]))):
         # one invocation per configuration: the field-sensitivity bound is the largest any of
@@ -141,6 +142,11 @@ def run_property(prop, tier, seed, only=None, jobs=16, keep_going=True):
                 inconclusive.append((m, cfg, "vacuity witness did not fail (harness unreachable?)"))
                 continue
             if st == "failed":
+                # counterexample extraction + native replay cost minutes per harness: the first MAX_REPLAYS failing
+                # harnesses are replayed; further ones are listed in the evidence as failed-but-not-replayed
+                if len([v for v in violations if v]) >= MAX_REPLAYS:
+                    unreplayed.append((m, cfg))
+                    continue
                 checks, tests, cout = kani.counterexample(prop, cfg, n, fsa=fsa, unwindset=uws, log=log)
                 violations.append(handle_failure(prop, m, cfg, n, checks, tests, known, known_hits, log, inconclusive))
                 continue
@@ -152,6 +158,9 @@ def run_property(prop, tier, seed, only=None, jobs=16, keep_going=True):
         print("KNOWN-FINDING: property=%s %s" % (prop, k))
     for v in violations:
         print("VIOLATION property=%s replay=%s" % (prop, v))
+    for m, cfg in unreplayed:
+        print("FAILED-NOT-REPLAYED property=%s harness=%s config=%s (replay budget of %d used up by the violations above)"
+              % (prop, m["name"], kani.cfg_name(cfg), MAX_REPLAYS))
     for m, cfg, why in inconclusive:
         print("INCONCLUSIVE property=%s harness=%s config=%s reason=%s" % (prop, m["name"], kani.cfg_name(cfg), why))
     nproved = sum(1 for m, c, r in results if (r["status"] == "success") != (m["expect"] == "fail"))
@@ -167,8 +176,12 @@ def run_property(prop, tier, seed, only=None, jobs=16, keep_going=True):
     hard = [w for m, c, w in inconclusive if "compile_error" in w or "vacuity" in w or "did not reproduce" in w or "noresult" in w]
     if hard or (results and len(inconclusive) * 4 > len(results)):
         return 2
+    if unreplayed:
+        return 2      # failing harnesses without any reproducing violation: cannot happen unless replays were inconclusive
     return 0
 
+
+MAX_REPLAYS = int(os.environ.get("VK_MAX_REPLAYS", "3"))
 
 UB_MARKERS = ("unreachable code", "unwinding assertion", "pointer", "dereference", "unsafe", "undefined")
 
